@@ -2,13 +2,16 @@
 # Regenerate every translated part of the Coq model from the source tree under test
 # (BIOM_REPO, default /repo).  Exit code 2 = the translator refused a source file (the tie is
 # broken); nothing is written for a refused target.  Files are rewritten only when they change.
-# Without arguments both translators run (tools/py2v and the dynamic-mode tools/py2v_dyn);
+# Without arguments all translators run (tools/py2v, the dynamic-mode tools/py2v_dyn and the
+# comparison-mode tools/py2v_eq, which tools/regen_eq.sh runs alone);
 # with arguments only the named tools/py2v targets (tools/regen_dyn.sh takes the py2v_dyn ones).
 here="$(cd "$(dirname "$0")/.." && pwd)"
 if [ $# -eq 0 ]; then
   /venv/bin/python "$here/tools/py2v/main.py" --repo "${BIOM_REPO:-/repo}" --out "$here"; rc1=$?
   /venv/bin/python "$here/tools/py2v_dyn/main.py" --repo "${BIOM_REPO:-/repo}" --out "$here"; rc2=$?
+  /venv/bin/python "$here/tools/py2v_eq/main.py" --repo "${BIOM_REPO:-/repo}" --out "$here"; rc3=$?
   [ "$rc1" -ne 0 ] && exit "$rc1"
-  exit "$rc2"
+  [ "$rc2" -ne 0 ] && exit "$rc2"
+  exit "$rc3"
 fi
 exec /venv/bin/python "$here/tools/py2v/main.py" --repo "${BIOM_REPO:-/repo}" --out "$here" "$@"
